@@ -62,7 +62,8 @@ def import_lines(ctx, lines, cfg, name="g.gff3", header=True):
 
 def check_created(case, db, rep, res):
     if db is None:
-        common.fail(res, case, "create_db_raised", "create_db raised on a GFF3 graph (dangling parents must be harmless): " + rep,
+        common.fail(res, case, "create_db_raised",
+                    "create_db raised on a GFF3 graph (dangling parents must be harmless): " + rep,
                     error=rep, observed=rep, expected="ok")
         return False
     return True
@@ -74,10 +75,12 @@ def check_db(db, nodes, res, case):
     try:
         all_ids = [f.id for f in db.all_features()]
     except Exception as ex:
-        common.fail(res, case, "all_features_raised", "all_features raised %r" % ex, error=dbside.err_name(ex), observed=repr(ex))
+        common.fail(res, case, "all_features_raised",
+                    "all_features raised %r" % ex, error=dbside.err_name(ex), observed=repr(ex))
         return
     if sorted(all_ids) != sorted(stored):
-        common.fail(res, case, "stored_features_differ", "stored features are not exactly the input lines (phantom or missing feature)",
+        common.fail(res, case, "stored_features_differ",
+                    "stored features are not exactly the input lines (phantom or missing feature)",
                     observed=sorted(all_ids), expected=sorted(stored))
         return
     for x in sorted(stored) + ["ghost0", "nonexistent"]:
@@ -92,10 +95,12 @@ def check_db(db, nodes, res, case):
                 continue
             res.evaluations += 1
             if len(got) != len(set(got)):
-                common.fail(res, case, "children_duplicate", "children(%r, level=%r) returns a feature more than once" % (x, level),
+                common.fail(res, case, "children_duplicate",
+                            "children(%r, level=%r) returns a feature more than once" % (x, level),
                             id=x, level=level, observed=got)
             elif set(got) != want[level]:
-                common.fail(res, case, "children_not_parent_graph", "children(%r, level=%r) is not the Parent graph" % (x, level),
+                common.fail(res, case, "children_not_parent_graph",
+                            "children(%r, level=%r) is not the Parent graph" % (x, level),
                             id=x, level=level, observed=sorted(got), expected=sorted(want[level]))
             if x in got:
                 common.fail(res, case, "own_child", "%r is its own child" % x, id=x, level=level, observed=got)
@@ -111,7 +116,8 @@ def check_db(db, nodes, res, case):
                 got = [f.id for f in db.parents(x, level=level)]
                 res.evaluations += 1
                 if len(got) != len(set(got)) or set(got) != inv:
-                    common.fail(res, case, "parents_not_inverse", "parents(%r, level=%r) is not the inverse of children" % (x, level),
+                    common.fail(res, case, "parents_not_inverse",
+                                "parents(%r, level=%r) is not the inverse of children" % (x, level),
                                 id=x, level=level, observed=sorted(got), expected=sorted(inv))
 
 
@@ -134,7 +140,8 @@ def check_children_args(case, db, nodes, res):
         want = [y for y in want if byid[y]["ftype"] in fts]
     keys = [byid[y]["start"] for y in got if y in byid]
     if sorted(got) != sorted(want) or keys != sorted(keys, reverse=rev):
-        common.fail(res, case, "children_args_wrong", "children(featuretype=%r, order_by='start', reverse=%r) wrong" % (ft, rev),
+        common.fail(res, case, "children_args_wrong",
+                    "children(featuretype=%r, order_by='start', reverse=%r) wrong" % (ft, rev),
                     observed=got, observed_starts=keys, expected_set=sorted(want))
     res.evaluations += 1
 
@@ -178,7 +185,8 @@ def check_iter(case, db, nodes, res):
         kids = sorted(f.id for f in unit[1:])
         want = sorted((lvl1.get(p, set()) & stored) | lvl2.get(p, set()))
         if kids != want:
-            common.fail(res, case, "iter_by_parent_childs_wrong", "iter_by_parent_childs yields wrong children for %r" % p,
+            common.fail(res, case, "iter_by_parent_childs_wrong",
+                        "iter_by_parent_childs yields wrong children for %r" % p,
                         id=p, observed=kids, expected=want)
 
 
@@ -271,7 +279,8 @@ def run(ctx):
                 for x in ids[:3]:
                     ft = r.choice(["exon", "mRNA", ["exon", "CDS"], None])
                     rev = r.random() < 0.5
-                    check_children_args(mk_case("children_args", lines, onodes, id=x, featuretype=ft, reverse=rev), db, onodes, res)
+                    check_children_args(mk_case("children_args", lines, onodes, id=x, featuretype=ft, reverse=rev),
+                                        db, onodes, res)
                 # the same graph reached through create_db of a prefix + update of the rest (relations are
                 # recomputed on a table that already holds level-2 rows)
                 if len(lines) >= 2:
